@@ -118,3 +118,9 @@ def run(ctx):
     from rules.C11 import block_restore
     peak_facts(ctx, prog)
     block_restore(ctx, prog)
+
+    ctx.rule('UNINIT-SERIAL', 'every local array serialised by psf_binheader_writef (`b` field) or psf_fwrite is initialised over the serialised length on every path '
+             '(memset / initialiser / string producer covering it): no stack residue reaches the file', floor=4)
+    from engine.uninit import uninit_serial
+    uninit_serial(ctx, prog)
+
